@@ -266,9 +266,16 @@ def main():
     if nshards == 1:
         parts = [_worker(jobs[0])]
     else:
+        # a ProcessPoolExecutor notices a worker that died (e.g. killed for memory) instead of waiting for it forever
         import multiprocessing as mp
-        with mp.get_context('spawn').Pool(min(nshards, os.cpu_count() or 1)) as pool:
-            parts = pool.map(_worker, jobs, chunksize=1)
+        from concurrent.futures import ProcessPoolExecutor
+        from concurrent.futures.process import BrokenProcessPool
+        try:
+            with ProcessPoolExecutor(max_workers=min(nshards, os.cpu_count() or 1), mp_context=mp.get_context('spawn')) as pool:
+                parts = list(pool.map(_worker, jobs, chunksize=1))
+        except BrokenProcessPool as e:
+            print(f"HARNESS-ERROR a worker process of the {a.tier} tier died abruptly ({e}); nothing is concluded from this run")
+            sys.exit(2)
     merged = _merge(parts)
     wall = time.time() - t0
     if merged['errors']:
